@@ -602,7 +602,14 @@ def _to_c_expr(
                         steps.append(
                             f"if (!(__redu_cmp{index} {op_token} __redu_cmp{index + 1})) {{ return false; }}"
                         )
-                return "([&]() -> bool { " + " ".join(steps) + " }())"
+                # a chain that reads no variable may initialise a global (where a lambda
+                # must not have a capture-default); one that reads variables needs them
+                callees = {id(sub.func) for sub in ast.walk(n) if isinstance(sub, ast.Call)}
+                reads_variable = any(
+                    isinstance(sub, ast.Name) and id(sub) not in callees for sub in ast.walk(n)
+                )
+                capture = "[&]" if reads_variable else "[]"
+                return "(" + capture + "() -> bool { " + " ".join(steps) + " }())"
 
             parts = []
             left = emit(n.left)
